@@ -293,9 +293,19 @@ def remove_fold_end_rule(rep, u, fname="http_hdr_val_remove"):
             if hs:
                 crlf.append((min(len(loops[h]) for h in hs), pos, c))
     lf = [pos for pos, root, c, ps in fn.calls() if (c.get("fn") or "").startswith("mem_chr") and any(const_val(a) == 10 for a in c["args"])]
-    if len(crlf) < 2:
+    desc0 = "%s: the end of the field to remove is searched past its continuation lines (CRLF followed by SP / HTAB)" % fname
+    nested = [t for t in crlf if len([h for h, b in loops.items() if t[1][0] in b]) >= 2]
+    if not nested:
+        prim = {"mem_find_ptr", "mem_find_ptr_cstr", "mem_chr_ptr", "memcmp", "memmove", "mem_find", "mem_find_cstr", "mem_chr", "__builtin_memcmp", "__builtin___memmove_chk"}
+        others = {c.get("fn") for _p, _r, c, _ps in fn.calls()} - prim
+        if crlf and not others:
+            rep.violated("R-FOLD", fn, "continuation-lines-followed", desc0, "the CRLF search runs once per field and no loop follows continuation lines: of a folded field only "
+                         "the first physical line is removed, the rest is appended to the field before it")
+            return 1
         raise driver.AnalysisBroken("%s: continuation loop with a CRLF search not found" % fname)
-    _sz, pos, call = min(crlf, key=lambda t: t[0])
+    rep.proved("R-FOLD", fn, "continuation-lines-followed", desc0, "CRLF search inside a nested loop")
+    crlf = nested + [t for t in crlf if t not in nested]
+    _sz, pos, call = min(nested, key=lambda t: t[0])
     desc = "%s: a folded field whose last continuation line ends the block is removed to the end of the block" % fname
     if not lf:
         rep.proved("R-FOLD", fn, "folded-last-field-removed-whole", desc, "no lone-LF fallback in the function")
